@@ -505,6 +505,14 @@ theorem C08_region_bridge (r : BqVerif.Region.Region) (hw : r.wf = true) (k q : 
     BqVerif.Circ.Region.covers (BqVerif.Region.toCirc r) k q = r.hasPt k q :=
   BqVerif.Region.covers_eq_hasPt r hw k q
 
+/-- **`region.transpose()`** lists exactly the cycles that hold a cell, in ascending order, each with
+    exactly the qudits of its cells in ascending order (no empty cycle is listed). -/
+theorem C08_region_transpose (r : BqVerif.Region.Region) (hr : r.wf = true) :
+    (∀ c qs, (c, qs) ∈ r.transpose → qs = r.location.filter (fun q => r.hasPt c q) ∧ qs ≠ [])
+    ∧ (∀ c, (∃ qs, (c, qs) ∈ r.transpose) ↔ ∃ q, r.hasPt c q = true)
+    ∧ (r.transpose.map (·.1)).Pairwise (· < ·) :=
+  BqVerif.Region.Region.transpose_spec r hr
+
 /-- non-vacuity: two blocks of a 3-qudit circuit, the second after the first on qudit 1 -/
 example :
     let r : BqVerif.Region.Region := [(1, ⟨2, 3⟩), (2, ⟨0, 3⟩)]
